@@ -177,6 +177,54 @@ Inv_C35_StagesBounded ==
     /\ (stage = "topup") => \A n \in DOMAIN fig.node : fig.node[n] >= 0 /\ fig.node[n] <= in.tu
 
 -----------------------------------------------------------------------------
+(* The economics stage (economics.go ComputeEndOfEpochEconomics, staking V2 epochs): where the figures of a run   *)
+(* come from.  e = [infl, nb, acc, dev, lp, pp]: infl = inflation-based rewards of the epoch (rewardsPerBlock *    *)
+(* blocks; the float inflation formula is not modelled, the value is observed from the real code with zero fees),  *)
+(* nb = blocks in the epoch (at least 1), acc / dev = AccumulatedFeesInEpoch / DevFeesInEpoch, lp / pp = leader   *)
+(* and protocol sustainability percentages as decimals [num, k].                                                  *)
+RECURSIVE EPow10(_)
+EPow10(k) == IF k = 0 THEN 1 ELSE 10 * EPow10(k - 1)
+EPct(v, p) == (v * p.num) \div EPow10(p.k)                 \* core.GetIntTrimmedPercentageOfValue
+EcoTotal0(e)     == e.infl                                  \* totalRewardsToBeDistributed := rwdPerBlock * blocks
+EcoFeesExceed(e) == EcoTotal0(e) - e.acc < 0                \* newTokens < 0: the fees exceed the inflation
+\* the correction branch: nothing is minted, the fees themselves are what is distributed
+EcoTotal(e)      == IF EcoFeesExceed(e) THEN e.acc ELSE EcoTotal0(e)
+EcoMinted(e)     == IF EcoFeesExceed(e) THEN 0 ELSE EcoTotal0(e) - e.acc
+EcoRpb0(e)       == IF EcoFeesExceed(e) THEN e.acc \div e.nb ELSE EcoTotal0(e) \div e.nb
+EcoLeader(e)     == EPct(e.acc - e.dev, e.lp)               \* adjustRewardsPerBlockWithLeaderPercentage (V2 epochs)
+EcoProt(e)       == EPct(EcoTotal(e), e.pp)                 \* computeRewardsForProtocolSustainability
+\* remainingToBeDistributed: what SetRewardsToBeDistributedForBlocks publishes to the rewards creator
+EcoForBlocks(e)  == EcoTotal(e) - e.dev - EcoLeader(e) - EcoProt(e)
+EcoRpb(e)        == EcoRpb0(e) - (e.dev \div e.nb) - (EcoLeader(e) \div e.nb) - (EcoProt(e) \div e.nb)
+EcoResult(e) == [total |-> EcoTotal(e), minted |-> EcoMinted(e), rpb |-> EcoRpb(e), prot |-> EcoProt(e),
+                 leader |-> EcoLeader(e), forBlocks |-> EcoForBlocks(e)]
+EcoConsistent(e) ==
+    /\ e.infl >= 0 /\ e.nb >= 1 /\ e.acc >= 0 /\ e.dev >= 0 /\ e.dev <= e.acc
+    /\ e.lp.num >= 0 /\ e.pp.num >= 0 /\ e.lp.num <= EPow10(e.lp.k) /\ e.pp.num <= EPow10(e.pp.k)
+
+\* named actions of the stage (model-checked on their own: MC_Rewards!EcoSpec)
+EcoInflation == Step("eco-start", "eco-inflation", "Inflation", [total0 |-> EcoTotal0(in)])
+EcoFeesCorrection ==
+    Step("eco-inflation", "eco-corrected", "FeesCorrection",
+         [feesExceedInflation |-> EcoFeesExceed(in), total |-> EcoTotal(in), minted |-> EcoMinted(in)])
+EcoRemaining == Step("eco-corrected", "eco-done", "Remaining", EcoResult(in))
+EcoNext == EcoInflation \/ EcoFeesCorrection \/ EcoRemaining
+
+\* what makes the rewards add up: the three published figures are exactly TotalToDistribute - DevFeesInEpoch
+Inv_C35_EcoPublishedAddUp ==
+    (stage = "eco-done") =>
+        /\ fig.forBlocks + fig.leader + fig.prot = fig.total - in.dev
+        /\ fig.total >= in.acc /\ fig.minted = fig.total - in.acc
+        \* developer fees are at most 30 % of the fees in practice: then something is left for the blocks
+        /\ (in.dev * 10 <= in.acc * 3 /\ (in.lp.num + in.pp.num) * 10 <= 7 * EPow10(in.lp.k)) => fig.forBlocks >= 0
+
+\* C35 on an end-to-end run: real economics figures ec = [total, minted, rpb, prot, leader, forBlocks] published for
+\* the epoch e, then the rewards run (i, o)
+ViolE2E(e, ec, i, o) ==
+    Viol([i EXCEPT !.total = ec.total, !.dev = e.dev], o)
+    \cup (IF ec.forBlocks + ec.leader + ec.prot # ec.total - e.dev THEN {"published-figures-do-not-add-up"} ELSE {})
+
+-----------------------------------------------------------------------------
 (* real-scale runs: amounts as little-endian base-10000 limbs; only the sum identity and positivity *)
 B == 10000
 RECURSIVE AddFrom(_, _, _, _)
